@@ -150,6 +150,25 @@ def link_stats(ctx):
     return out
 
 
+def link_evaluator(ctx):
+    reg = ctx.reg
+    out = []
+    for q in ("pyab_experiment.utils.wraper_functions.parse_source", "pyab_experiment.utils.wraper_functions.generate_code",
+              "pyab_experiment.experiment_evaluator.ParseError.__init__", "pyab_experiment.experiment_evaluator.ExperimentEvaluator.__init__",
+              "pyab_experiment.experiment_evaluator.ExperimentEvaluator.recompile", "pyab_experiment.experiment_evaluator.ExperimentEvaluator.run_experiment",
+              "pyab_experiment.experiment_evaluator.ExperimentEvaluator.__call__"):
+        out += reg.contracts[q].verify()
+    from vcore import native
+
+    def run_lc():
+        r = native.one({"cmd": "lifecycle_diff", "maxlen": 3 if ctx.tier == "quick" else 4})
+        return r["failures"], {"evaluations": r["evaluations"], "sequences": r["sequences"], "bound": r["bound"]}
+    out.append(bounded_obl("bounded:evaluator/lifecycle-histories", "pyab_experiment.experiment_evaluator:ExperimentEvaluator.recompile",
+                           "every evaluator behaves like a fresh evaluator of its last accepted text after every bounded history",
+                           ("C11",), run_lc))
+    return out
+
+
 # ------------------------------------------------------------------------------------------------- properties
 
 BIN = "pyab_experiment.binning.binning."
@@ -235,4 +254,25 @@ class C18(Prop):
                 contract_canary("abs-dropped", tp, "abs(log(alpha / (1 - alpha)))", "log(alpha / (1 - alpha))", r"ensures\.(z==|nonneg)")]
 
 
-PROPS = {c.id: c() for c in (C03, C10, C16, C18)}
+class C11(Prop):
+    id, title = "C11", "Evaluator lifecycle: recompile is atomic, repeatable and instance-local"
+    min_obligations = 30
+    trusted_base = ("z3", "cvc5", "assumed contracts (summaries) of the pipeline stages: sly tokenize/parse, PythonCodeGen.generate, compile, exec are deterministic functions of their arguments that may raise",
+                    "assumed: MD5 is injective on the texts involved (checksum hit => same text)")
+    assumptions = (A_STR, A_MODULAR,
+                   "'any sequence of operations over any set of evaluators' follows from the per-operation contracts by induction on the history (paper step): every operation preserves the representation invariant I(self, accepted) and writes only to its own instance",
+                   "outcome class of recompile is a function of the source text because every stage is a deterministic function (C01 obligations)")
+    explanation = "representation invariant with ghost `accepted`; recompile/__init__/__call__/run_experiment/parse_source verified path by path incl. state-after-exception clauses and frame"
+
+    def links(self, ctx):
+        return [link_evaluator]
+
+    def canaries(self, ctx):
+        t = "pyab_experiment.experiment_evaluator.ExperimentEvaluator.recompile"
+        return [contract_canary("class-level-checksum", t, "self._checksum = new_checksum", "ExperimentEvaluator._checksum = new_checksum", r"frame\.no-global|ensures\.|frame\.exception"),
+                contract_canary("parse-None-swallowed", t, "raise ParseError()", "return", r"ensures\.(switches|accepted|invariant)"),
+                contract_canary("checksum-before-compile", t, "code_holder = {}", "code_holder = {}\n            self._checksum = new_checksum", r"frame\.exception"),
+                contract_canary("no-checksum-test", t, "if self._checksum != new_checksum:", "if True:", r"ensures\.no-op")]
+
+
+PROPS = {c.id: c() for c in (C03, C10, C11, C16, C18)}
